@@ -83,6 +83,8 @@ def from_tlc(h, rnd=None):
             steps.append(intake)
         elif ev in ("L_BlockTime", "L_Insert"):
             intake = None
+        elif ev == "Restart" and rnd.random() < 0.2:      # every restart costs the supervisor's real back-off (0.25..0.75 s)
+            steps.append({"ev": "Restart", "a": {"via": rnd.choice(["poll", "ltime"]), "text": rnd.choice(ERR_TEXTS)}})
         elif ev == "Reobserve":
             reobs = {"ev": "Reobserve", "a": a}
             after_rhead = False
@@ -124,8 +126,11 @@ class Gen:
              "seq": r.randrange(1, 1000), "variant": {}, "pend": []}
         init = {"latest": latest, "final": latest - lag}
         n = r.randrange(5, 16)
-        if r.random() < 0.3:
+        x0 = r.random()
+        if x0 < 0.25:
             self.held_intake(S)
+        elif x0 < 0.30:
+            self.restart_while_pending(S)
         else:
             self.mine_and_push(S)
         for _ in range(n):
@@ -145,6 +150,8 @@ class Gen:
                                                       "text": r.choice(ERR_TEXTS)}})
             elif x < 0.92 and S["pend"]:
                 self.error_at_depth(S)
+            elif x < 0.923:
+                S["steps"].append({"ev": "Restart", "a": {"via": r.choice(["poll", "ltime"]), "text": r.choice(ERR_TEXTS)}})
             else:
                 self.reobserve(S)
         # let everything that can be confirmed be confirmed
@@ -222,6 +229,24 @@ class Gen:
         S["pend"].append((tx, nblk, lg["cl"]))
         for _ in range(r.choice([1, 2, 3])):
             self.head(S, force=r.choice([1, 1, 2, 16]))
+
+    def restart_while_pending(self, S):
+        """Run returns (fatal RPC error) and the supervisor restarts it on the same Watcher while k >= 1 messages are
+        still waiting for their depth; the chain moves on, a later log wakes the poller, and every message whose
+        transaction stayed in its block has to come out."""
+        r = self.r
+        for _ in range(r.choice([1, 1, 2])):
+            self.mine_and_push(S)
+        if r.random() < 0.5:
+            self.head(S, force=1)
+        S["steps"].append({"ev": "Restart", "a": {"via": r.choice(["poll", "ltime"]), "text": r.choice(ERR_TEXTS)}})
+        for _ in range(r.choice([0, 1, 2])):
+            self.head(S, force=r.choice([1, 2, 5, 30]))
+        if r.random() < 0.2:
+            S["steps"].append({"ev": "Restart", "a": {"via": "ltime", "text": r.choice(ERR_TEXTS)}})
+        self.mine_and_push(S)
+        for _ in range(r.choice([1, 2])):
+            self.head(S, force=r.choice([1, 3, 16, 70, 260]))
 
     def head(self, S, force=None):
         r = self.r
@@ -654,6 +679,12 @@ def signature(rej, line, prev):
         return "reobs/receipt-before-head"
     if ev == "R_BlockTime" and rs is None:
         return "reobs/continued-after-unusable-receipt"
+    if ev == "RunRestart":
+        if "post-state differs" in why:
+            logged = {_key(k) for k in (line.get("s", {}) or {}).get("pending", [])}
+            lost = [e for e in pend if _key(e) not in logged]
+            return "restart/pending-lost" if lost else "restart/pending-has-unexpected-entry"
+        return "restart/not-allowed-here"
     if ev == "L_Insert":
         return "intake/pending-differs"
     if ev == "End":
